@@ -7,8 +7,10 @@ package mgmthttp
 /*@
 func MgmtApi.CreateBackup
   modifies everything
+// (ghost bookkeeping: the list the API returned)
 func MgmtApi.ListBackups
-  modifies everything
+  modifies everything, listedBackups
+  assumes listedBackups == result
 // (ghost bookkeeping, as for the store: which backup the API was asked to delete)
 func MgmtApi.DeleteBackup
   modifies everything, deleteBackupCalls, lastDeletedBackup
@@ -30,8 +32,11 @@ func DeleteBackup
   modifies everything, deleteBackupCalls, lastDeletedBackup, lastParsedUint
   ensures C16/at-most-one-deletion: deleteBackupCalls == old(deleteBackupCalls) || deleteBackupCalls == old(deleteBackupCalls) + 1
   ensures C16/deletes-the-id-in-the-request: deleteBackupCalls != old(deleteBackupCalls) ==> uint64(lastDeletedBackup) == lastParsedUint
+// "listing shows every existing backup": what the handler writes out is the encoding of the
+// very list the API returned - not a filtered, regrouped or rebuilt one
 func ListBackups.$1
   props C11 C16
   requires !isnil(api) && !isnil(w) && r != nil
-  modifies everything
+  modifies everything, listedBackups
+  ensures C16/lists-what-the-api-returned: marshalCalls == old(marshalCalls) || (marshalCalls == old(marshalCalls) + 1 && istype(lastMarshalled, []*storage.BackupInfo) && arrayof(dyn(lastMarshalled, []*storage.BackupInfo)) == arrayof(listedBackups) && len(dyn(lastMarshalled, []*storage.BackupInfo)) == len(listedBackups))
 @*/
